@@ -225,6 +225,57 @@ pub fn run(ctx: &Ctx) -> Report {
     }
     rep.count("foreign_layout_files", foreign);
 
+    // ---- .shp/.shx pairs on disk whose index is permuted / padded: every path route, typed
+    //      against generic-then-convert
+    if let Some(dir) = ctx.opt("indexed") {
+        let manifest = std::fs::read_to_string(format!("{}/files.jsonl", dir)).expect("harness: files.jsonl");
+        for (li, line) in manifest.lines().enumerate() {
+            let get = |key: &str| -> Option<String> {
+                let pat = format!("\"{}\": ", key);
+                let i = line.find(&pat)? + pat.len();
+                let rest = &line[i..];
+                let end = rest.find(|c| c == ',' || c == '}').unwrap_or(rest.len());
+                Some(rest[..end].trim().trim_matches('"').to_string())
+            };
+            let t: i32 = get("typed").and_then(|v| v.parse().ok()).unwrap_or(-1);
+            if t < 1 {
+                continue;
+            }
+            let name = get("file").expect("harness: file key");
+            let case = format!("c06:indexed:{}", name);
+            if !ctx.want(&case) || (li % 3 != 0 && name.contains("_n4_")) {
+                continue; // a third of the n = 4 permutations is plenty here
+            }
+            let path = format!("{}/{}.shp", dir, name);
+            rep.eval();
+            rep.class("typed vs generic by path, permuted/padded index");
+            rep.count("indexed_pairs_compared_by_path", 1);
+            let outcome = for_type!(t, S => panicmon::catch(|| {
+                let dumps = |v: Vec<S>| v.iter().map(|s| s.d()).collect::<Vec<D>>();
+                let typed_one_liner = shapefile::read_shapes_as::<_, S>(&path).map(dumps);
+                let generic_one_liner = shapefile::read_shapes(&path).and_then(convert_shapes_to_vec_of::<S>).map(dumps);
+                let typed_reader = ShapeReader::from_path(&path).and_then(|r| r.read_as::<S>()).map(dumps);
+                let generic_reader = ShapeReader::from_path(&path).and_then(|r| r.read()).and_then(convert_shapes_to_vec_of::<S>).map(dumps);
+                let typed_iter = ShapeReader::from_path(&path).and_then(|mut r| r.iter_shapes_as::<S>().collect::<Result<Vec<S>, Error>>()).map(dumps);
+                let generic_iter = ShapeReader::from_path(&path).and_then(|mut r| r.iter_shapes().collect::<Result<Vec<Shape>, Error>>()).and_then(convert_shapes_to_vec_of::<S>).map(dumps);
+                let str_of = |r: &Result<Vec<D>, Error>| match r { Ok(v) => format!("Ok({} shapes)", v.len()), Err(e) => err_class(e) };
+                let mut bad: Option<String> = None;
+                for (what, a, b) in [("read_shapes_as vs read_shapes", &typed_one_liner, &generic_one_liner), ("from_path.read_as vs from_path.read", &typed_reader, &generic_reader), ("from_path.iter_shapes_as vs iter_shapes", &typed_iter, &generic_iter), ("read_shapes_as vs from_path.read_as", &typed_one_liner, &typed_reader)] {
+                    let same = match (a, b) { (Ok(x), Ok(y)) => x == y, (Err(_), Err(_)) => true, _ => false };
+                    if !same && bad.is_none() {
+                        bad = Some(format!("{}: {} / {}", what, str_of(a), str_of(b)));
+                    }
+                }
+                bad
+            }));
+            match outcome {
+                Ok(None) => {}
+                Ok(Some(what)) => rep.violation(&format!("({0},{0})/path-routes/value", type_name(t)), &case, J::obj(vec![("file", J::s(name.clone())), ("what", J::s(what))])),
+                Err(p) => rep.violation(&format!("({0},{0})/path-routes/panic", type_name(t)), &case, J::s(p.class())),
+            }
+        }
+    }
+
     // ---- the matrix
     for &s_code in &TYPES {
         for (fi, f) in files.iter().enumerate() {
